@@ -360,6 +360,8 @@ impl<K, V, S> HashMap<K, V, S> {
     /// assert!(map.pin().len() == 2);
     /// ```
     pub fn len(&self) -> usize {
+        #[cfg(flurry_verif)]
+        crate::verif::raw(crate::verif::Kind::Load, &self.count, 0, 0, "count");
         let n = self.count.load(Ordering::Relaxed);
         if n < 0 {
             0
@@ -444,13 +446,19 @@ impl<K, V, S> HashMap<K, V, S> {
                 break table;
             }
             // try to allocate the table
+            #[cfg(flurry_verif)]
+            crate::verif::raw(crate::verif::Kind::Load, &self.size_ctl, 0, 0, "size_ctl");
             let mut sc = self.size_ctl.load(Ordering::SeqCst);
             if sc < 0 {
                 // we lost the initialization race; just spin
+                #[cfg(flurry_verif)]
+                crate::verif::spin();
                 std::thread::yield_now();
                 continue;
             }
 
+            #[cfg(flurry_verif)]
+            crate::verif::raw(crate::verif::Kind::Cas, &self.size_ctl, sc, -1, "size_ctl");
             if self
                 .size_ctl
                 .compare_exchange(sc, -1, Ordering::SeqCst, Ordering::Relaxed)
@@ -471,6 +479,8 @@ impl<K, V, S> HashMap<K, V, S> {
                     self.table.store(table, Ordering::SeqCst);
                     sc = load_factor!(n as isize)
                 }
+                #[cfg(flurry_verif)]
+                crate::verif::raw(crate::verif::Kind::Store, &self.size_ctl, sc, 0, "size_ctl");
                 self.size_ctl.store(sc, Ordering::SeqCst);
                 break table;
             }
@@ -518,6 +528,8 @@ impl<K, V, S> HashMap<K, V, S> {
 
         // store the next load at which the table should resize to it's size_ctl field
         // and thus release the initialization "lock"
+        #[cfg(flurry_verif)]
+        crate::verif::raw(crate::verif::Kind::Store, &self.size_ctl, new_load_to_resize_at, 0, "size_ctl");
         self.size_ctl.store(new_load_to_resize_at, Ordering::SeqCst);
     }
 }
@@ -547,6 +559,8 @@ where
         } as isize;
 
         loop {
+            #[cfg(flurry_verif)]
+            crate::verif::raw(crate::verif::Kind::Load, &self.size_ctl, 0, 0, "size_ctl");
             let size_ctl = self.size_ctl.load(Ordering::SeqCst);
             if size_ctl < 0 {
                 break;
@@ -572,6 +586,8 @@ where
                 let new_capacity = requested_capacity.max(initial_capacity) as usize;
 
                 // try to aquire the initialization "lock" to indicate that we are initializing the table.
+                #[cfg(flurry_verif)]
+                crate::verif::raw(crate::verif::Kind::Cas, &self.size_ctl, size_ctl, -1, "size_ctl");
                 if self
                     .size_ctl
                     .compare_exchange(size_ctl, -1, Ordering::SeqCst, Ordering::Relaxed)
@@ -589,6 +605,8 @@ where
 
                     // the table is already initialized; Write the `size_ctl` value it had back to it's
                     // `size_ctl` field to release the initialization "lock"
+                    #[cfg(flurry_verif)]
+                    crate::verif::raw(crate::verif::Kind::Store, &self.size_ctl, size_ctl, 0, "size_ctl");
                     self.size_ctl.store(size_ctl, Ordering::SeqCst);
                     continue;
                 }
@@ -615,6 +633,8 @@ where
 
                 // store the next load at which the table should resize to it's size_ctl field
                 // and thus release the initialization "lock"
+                #[cfg(flurry_verif)]
+                crate::verif::raw(crate::verif::Kind::Store, &self.size_ctl, new_load_to_resize_at, 0, "size_ctl");
                 self.size_ctl.store(new_load_to_resize_at, Ordering::SeqCst);
             } else if requested_capacity <= size_ctl || current_capactity >= MAXIMUM_CAPACITY {
                 // Either the `requested_capacity` was smaller than or equal to the load we would resize at (size_ctl)
@@ -632,6 +652,8 @@ where
                 // and since our size_control field needs to be negative
                 // to indicate a resize this needs to be addressed
 
+                #[cfg(flurry_verif)]
+                crate::verif::raw(crate::verif::Kind::Cas, &self.size_ctl, size_ctl, rs + 2, "size_ctl");
                 if self
                     .size_ctl
                     .compare_exchange(size_ctl, rs + 2, Ordering::SeqCst, Ordering::Relaxed)
@@ -669,6 +691,8 @@ where
             let table = Shared::boxed(Table::new(n << 1, &self.collector), &self.collector);
             let now_garbage = self.next_table.swap(table, Ordering::SeqCst, guard);
             assert!(now_garbage.is_null());
+            #[cfg(flurry_verif)]
+            crate::verif::raw(crate::verif::Kind::Store, &self.transfer_index, n as isize, 0, "transfer_index");
             self.transfer_index.store(n as isize, Ordering::SeqCst);
             next_table_ptr = self.next_table.load(Ordering::Relaxed, guard);
         }
@@ -689,6 +713,8 @@ where
                     break;
                 }
 
+                #[cfg(flurry_verif)]
+                crate::verif::raw(crate::verif::Kind::Load, &self.transfer_index, 0, 0, "transfer_index");
                 let next_index = self.transfer_index.load(Ordering::SeqCst);
                 if next_index <= 0 {
                     i = -1;
@@ -701,6 +727,8 @@ where
                 } else {
                     0
                 };
+                #[cfg(flurry_verif)]
+                crate::verif::raw(crate::verif::Kind::Cas, &self.transfer_index, next_index, next_bound, "transfer_index");
                 if self
                     .transfer_index
                     .compare_exchange(next_index, next_bound, Ordering::SeqCst, Ordering::Relaxed)
@@ -746,12 +774,18 @@ where
                     // in the reference count, meaning the garbage will not be freed until
                     // that thread drops its guard at the earliest.
                     unsafe { guard.retire_shared(now_garbage) };
+                    #[cfg(flurry_verif)]
+                    crate::verif::raw(crate::verif::Kind::Store, &self.size_ctl, ((n as isize) << 1) - ((n as isize) >> 1), 0, "size_ctl");
                     self.size_ctl
                         .store(((n as isize) << 1) - ((n as isize) >> 1), Ordering::SeqCst);
                     return;
                 }
 
+                #[cfg(flurry_verif)]
+                crate::verif::raw(crate::verif::Kind::Load, &self.size_ctl, 0, 0, "size_ctl");
                 let sc = self.size_ctl.load(Ordering::SeqCst);
+                #[cfg(flurry_verif)]
+                crate::verif::raw(crate::verif::Kind::Cas, &self.size_ctl, sc, sc - 1, "size_ctl");
                 if self
                     .size_ctl
                     .compare_exchange(sc, sc - 1, Ordering::SeqCst, Ordering::Relaxed)
@@ -819,6 +853,8 @@ where
                 }
                 BinEntry::Node(ref head) => {
                     // bin is non-empty, need to link into it, so we must take the lock
+                    #[cfg(flurry_verif)]
+                    let _vs = crate::verif::LockScope::new(&head.lock);
                     let head_lock = head.lock.lock();
 
                     // need to check that this is _still_ the head
@@ -934,6 +970,8 @@ where
                     drop(head_lock);
                 }
                 BinEntry::Tree(ref tree_bin) => {
+                    #[cfg(flurry_verif)]
+                    let _vs = crate::verif::LockScope::new(&tree_bin.lock);
                     let bin_lock = tree_bin.lock.lock();
 
                     // need to check that this is _still_ the correct bin
@@ -1110,7 +1148,11 @@ where
         while next_table == self.next_table.load(Ordering::SeqCst, guard)
             && table == self.table.load(Ordering::SeqCst, guard)
         {
+            #[cfg(flurry_verif)]
+            crate::verif::raw(crate::verif::Kind::Load, &self.size_ctl, 0, 0, "size_ctl");
             let sc = self.size_ctl.load(Ordering::SeqCst);
+            #[cfg(flurry_verif)]
+            crate::verif::raw(crate::verif::Kind::Yield, &self.transfer_index, 0, 0, "transfer_index");
             if sc >= 0
                 || sc == rs + MAX_RESIZERS
                 || sc == rs + 1
@@ -1119,6 +1161,8 @@ where
                 break;
             }
 
+            #[cfg(flurry_verif)]
+            crate::verif::raw(crate::verif::Kind::Cas, &self.size_ctl, sc, sc + 1, "size_ctl");
             if self
                 .size_ctl
                 .compare_exchange(sc, sc + 1, Ordering::SeqCst, Ordering::Relaxed)
@@ -1135,6 +1179,8 @@ where
         // TODO: implement the Java CounterCell business here
 
         use std::cmp;
+        #[cfg(flurry_verif)]
+        crate::verif::raw(crate::verif::Kind::FetchAdd, &self.count, n, 0, "count");
         let mut count = match n.cmp(&0) {
             cmp::Ordering::Greater => self.count.fetch_add(n, Ordering::SeqCst) + n,
             cmp::Ordering::Less => self.count.fetch_sub(n.abs(), Ordering::SeqCst) + n,
@@ -1151,6 +1197,8 @@ where
         let _saw_bin_length = resize_hint.unwrap();
 
         loop {
+            #[cfg(flurry_verif)]
+            crate::verif::raw(crate::verif::Kind::Load, &self.size_ctl, 0, 0, "size_ctl");
             let sc = self.size_ctl.load(Ordering::SeqCst);
             if count < sc {
                 // we're not at the next resize point yet
@@ -1175,6 +1223,8 @@ where
             }
 
             let rs = Self::resize_stamp(n) << RESIZE_STAMP_SHIFT;
+            #[cfg(flurry_verif)]
+            crate::verif::raw(crate::verif::Kind::Yield, &self.size_ctl, sc, rs + 2, "size_ctl");
             if sc < 0 {
                 // ongoing resize! can we join the resize transfer?
                 if sc == rs + MAX_RESIZERS || sc == rs + 1 {
@@ -1184,11 +1234,15 @@ where
                 if nt.is_null() {
                     break;
                 }
+                #[cfg(flurry_verif)]
+                crate::verif::raw(crate::verif::Kind::Load, &self.transfer_index, 0, 0, "transfer_index");
                 if self.transfer_index.load(Ordering::SeqCst) <= 0 {
                     break;
                 }
 
                 // try to join!
+                #[cfg(flurry_verif)]
+                crate::verif::raw(crate::verif::Kind::Cas, &self.size_ctl, sc, sc + 1, "size_ctl");
                 if self
                     .size_ctl
                     .compare_exchange(sc, sc + 1, Ordering::SeqCst, Ordering::Relaxed)
@@ -1208,6 +1262,8 @@ where
             }
 
             // another resize may be needed!
+            #[cfg(flurry_verif)]
+            crate::verif::raw(crate::verif::Kind::Load, &self.count, 0, 0, "count");
             count = self.count.load(Ordering::SeqCst);
         }
     }
@@ -1468,6 +1524,8 @@ where
                     idx = 0;
                 }
                 BinEntry::Node(ref node) => {
+                    #[cfg(flurry_verif)]
+                    let _vs = crate::verif::LockScope::new(&node.lock);
                     let head_lock = node.lock.lock();
                     // need to check that this is _still_ the head
                     let current_head = tab.bin(idx, guard);
@@ -1520,6 +1578,8 @@ where
                     idx += 1;
                 }
                 BinEntry::Tree(ref tree_bin) => {
+                    #[cfg(flurry_verif)]
+                    let _vs = crate::verif::LockScope::new(&tree_bin.lock);
                     let bin_lock = tree_bin.lock.lock();
                     // need to check that this is _still_ the correct bin
                     let current_head = tab.bin(idx, guard);
@@ -1767,6 +1827,8 @@ where
                 }
                 BinEntry::Node(ref head) => {
                     // bin is non-empty, need to link into it, so we must take the lock
+                    #[cfg(flurry_verif)]
+                    let _vs = crate::verif::LockScope::new(&head.lock);
                     let head_lock = head.lock.lock();
 
                     // need to check that this is _still_ the head
@@ -1857,6 +1919,8 @@ where
                 // cannot occur as in the Java code, TreeBins have a special, indicator hash value
                 BinEntry::Tree(ref tree_bin) => {
                     // bin is non-empty, need to link into it, so we must take the lock
+                    #[cfg(flurry_verif)]
+                    let _vs = crate::verif::LockScope::new(&tree_bin.lock);
                     let head_lock = tree_bin.lock.lock();
 
                     // need to check that this is _still_ the correct bin
@@ -2070,6 +2134,8 @@ where
                 }
                 BinEntry::Node(ref head) => {
                     // bin is non-empty, need to link into it, so we must take the lock
+                    #[cfg(flurry_verif)]
+                    let _vs = crate::verif::LockScope::new(&head.lock);
                     let head_lock = head.lock.lock();
 
                     // need to check that this is _still_ the head
@@ -2189,6 +2255,8 @@ where
                 }
                 BinEntry::Tree(ref tree_bin) => {
                     // bin is non-empty, need to link into it, so we must take the lock
+                    #[cfg(flurry_verif)]
+                    let _vs = crate::verif::LockScope::new(&tree_bin.lock);
                     let bin_lock = tree_bin.lock.lock();
 
                     // need to check that this is _still_ the head
@@ -2464,6 +2532,8 @@ where
                     continue;
                 }
                 BinEntry::Node(ref head) => {
+                    #[cfg(flurry_verif)]
+                    let _vs = crate::verif::LockScope::new(&head.lock);
                     let head_lock = head.lock.lock();
 
                     // need to check that this is _still_ the head
@@ -2533,6 +2603,8 @@ where
                     drop(head_lock);
                 }
                 BinEntry::Tree(ref tree_bin) => {
+                    #[cfg(flurry_verif)]
+                    let _vs = crate::verif::LockScope::new(&tree_bin.lock);
                     let bin_lock = tree_bin.lock.lock();
 
                     // need to check that this is _still_ the head
@@ -2735,6 +2807,8 @@ where
             // won't be dropped until after we release our guard.
             match **unsafe { bin.deref() } {
                 BinEntry::Node(ref node) => {
+                    #[cfg(flurry_verif)]
+                    let _vs = crate::verif::LockScope::new(&node.lock);
                     let lock = node.lock.lock();
                     // check if `bin` is still the head
                     if tab.bin(index, guard) != bin {
@@ -3550,3 +3624,7 @@ mod tree_bins {
         assert_eq!(oops.unwrap(), "hello");
     }
 }
+
+#[cfg(flurry_verif)]
+#[path = "verif_map.rs"]
+pub mod verif_map;
